@@ -584,13 +584,15 @@ K129 == {1, 2, 9}    \* ... with an unorderable item
 K128 == {1, 2, 8}    \* ... with an unhashable item
 
 DataSets(n, K) == [1..n -> SeqsUpTo(K, MaxLen)]
+\* one source more than MaxSrc, each with at most one item: who is asked first, who is never asked
+WideSets(K) == [1..(MaxSrc + 1) -> SeqsUpTo(K, 1)]
 NoPar == [z |-> 0]
 
 ConfigsOf(t) ==
   CASE t = "zip" ->
          \* key 0 stands for an item that is the object None (nothing may be read into that)
          {[tool |-> t, par |-> [strict |-> b], data |-> d] :
-             b \in BOOLEAN, d \in UNION {DataSets(n, K01) : n \in 0..MaxSrc}}
+             b \in BOOLEAN, d \in UNION {DataSets(n, K01) : n \in 0..MaxSrc} \cup WideSets(K01)}
     [] t = "map" ->
          {[tool |-> t, par |-> NoPar, data |-> d] : d \in UNION {DataSets(n, K1) : n \in 1..2}}
     [] t \in {"filter", "filterfalse"} ->
@@ -607,7 +609,7 @@ ConfigsOf(t) ==
              m \in 1..(MaxLen + 1), b \in BOOLEAN, d \in DataSets(1, K1)}
     [] t = "chain" ->
          {[tool |-> t, par |-> [outer |-> b], data |-> d] :
-             b \in BOOLEAN, d \in UNION {DataSets(n, K1) : n \in 0..MaxSrc}}
+             b \in BOOLEAN, d \in UNION {DataSets(n, K1) : n \in 0..MaxSrc} \cup WideSets(K1)}
     [] t = "compress" ->
          {[tool |-> t, par |-> NoPar, data |-> d] : d \in DataSets(2, K01)}
     [] t \in {"cycle", "pairwise", "starmap"} ->
@@ -619,12 +621,13 @@ ConfigsOf(t) ==
              a \in {NoneI} \cup 0..(MaxLen + 1), b \in {NoneI} \cup 0..(MaxLen + 2),
              c \in {NoneI} \cup 1..3, d \in {dd \in DataSets(1, K1) : Len(dd[1]) \in {0, 1, MaxLen - 1, MaxLen}}}
     [] t = "zip_longest" ->
-         {[tool |-> t, par |-> [fill |-> f], data |-> d] : f \in {"fresh", "first"}, d \in UNION {DataSets(n, K1) : n \in 0..MaxSrc}}
+         {[tool |-> t, par |-> [fill |-> f], data |-> d] : f \in {"fresh", "first"}, d \in UNION {DataSets(n, K1) : n \in 0..MaxSrc} \cup WideSets(K1)}
     [] t = "merge" ->
          UNION {{[tool |-> t, par |-> [key |-> b, rev |-> v], data |-> d] :
                    b \in BOOLEAN,
                    d \in UNION {{dd \in DataSets(n, K12) :
-                                   \A i \in 1..n : IF v THEN NonIncr(dd[i]) ELSE NonDecr(dd[i])} : n \in 0..MaxSrc}}
+                                   \A i \in 1..n : IF v THEN NonIncr(dd[i]) ELSE NonDecr(dd[i])} : n \in 0..MaxSrc}
+                        \cup WideSets(K12)}
                 : v \in BOOLEAN}
     [] t \in {"all", "any"} ->
          {[tool |-> t, par |-> NoPar, data |-> d] : d \in DataSets(1, K01)}
